@@ -1011,6 +1011,8 @@ TWINS = [("if-tests-extracted-into-explaining-variables", twin_extract_tests), (
          ("constant-first-in-symmetric-comparisons", twin_yoda), ("swap-branches-of-every-if-else", twin_swap_if_else), ("de-morgan-and-negated-comparisons-in-tests", twin_de_morgan),
          ("reformat-through-unparse", twin_reformat), ("noop-statements-everywhere", twin_noops), ("rename-all-function-locals", twin_rename_locals),
          ("invert-every-if-without-else", twin_invert_ifs), ("dict()-instead-of-{}", twin_dict_calls), ("log.debug-at-every-function-entry", twin_logging)]
+from . import twins2 as _twins2     # noqa: E402
+TWINS = TWINS + list(_twins2.TWINS2)
 
 
 # ------------------------------------------------------------------------------------------------ execution
